@@ -47,6 +47,19 @@ type Sched struct {
 	done    map[string]bool
 	result  map[string]error
 	Timeout gotime.Duration
+	ridLog  []ridSpan
+	binds   []bindRec // order in which goroutines were bound to requests
+}
+
+type ridSpan struct {
+	gid int64
+	rid string
+}
+
+type bindRec struct {
+	gid int64
+	rid string
+	seq int
 }
 
 // NewSched creates a scheduler (off until Enable).
@@ -121,6 +134,11 @@ func (s *Sched) Start(id string, call func() error) (string, error) {
 		err := call()
 		s.mu.Lock()
 		s.done[id], s.result[id] = true, err
+		// the HTTP/2 server may run the next handler on the same goroutine
+		if g, ok := s.gidOf[id]; ok {
+			s.ridLog = append(s.ridLog, ridSpan{g, id})
+			delete(s.reqOf, g)
+		}
 		s.cond.Broadcast()
 		s.mu.Unlock()
 	}()
@@ -147,6 +165,7 @@ func (s *Sched) Start(id string, call func() error) (string, error) {
 	}
 	s.reqOf[found] = id
 	s.gidOf[id] = found
+	s.binds = append(s.binds, bindRec{found, id, len(s.binds)})
 	return s.parked[found].point, nil
 }
 
